@@ -298,4 +298,13 @@ tuple next to SparseDense rows stops being the value its reward function is keye
 theorem harden_mixed_counterexample : keepsAligned Cfg.asIs [.finalize] wHardenMixed = false := by decide +kernel
 example : keepsAligned Cfg.fixed [.finalize] wHardenMixed = true := by decide +kernel
 
+/-! ### collections of environments -/
+
+/-- what every member of an `Environments` collection has to get from `.dense(…)`: the output of a *freshly constructed*
+Densify object, which is `runPrim` on that member alone (the harness demands exactly this per member, in every reading order) -/
+theorem fresh_densify_object (cfg : Cfg) (n : Nat) (c a : Bool) (s : List Inter) :
+    (match runPrimObj cfg (.densify n (.lookup []) c a) (initDState n) s with
+      | .ok (s', _) => Except.ok s'
+      | .error e => .error e) = runPrim cfg (.densify n (.lookup []) c a) s := fresh_densify_object' cfg n c a s
+
 end Coba.C10
